@@ -22,42 +22,52 @@ def build_pools(ck, tier, rnd, langs=gen.LANGS, tag="x"):
             ts = corp
         else:
             ts = gen.WORDS["titles"][lang]
+        # Every regime of titles keeps a fixed share of the pool however many regimes there are (a pool drawn from uniformly
+        # would dilute each regime with every regime added later): the entries of a regime are repeated cyclically up to
+        # its share of a nominal pool of 400.
+        base = list(ts)
+        reg = {"base": list(base), "case": [], "nfd": [], "table": [], "function": [], "special": list(gen.SPECIAL_TITLES)}
         # titles containing the language's longer function words (they are matched like any other word)
         fws = [text(w["w"]) for w in gen.LANGTAB[lang]["function_words"] if len(w["w"]) >= 5]
         rnd.shuffle(fws)
-        ts = list(ts) + [fw + " " + rnd.choice(ts).split(" ")[0] for fw in fws[:8] if ts] + [rnd.choice(ts).split(" ")[0] + " " + fw for fw in fws[8:12] if ts]
+        reg["base"] += [fw + " " + rnd.choice(base).split(" ")[0] for fw in fws[:8] if base] + [rnd.choice(base).split(" ")[0] + " " + fw for fw in fws[8:12] if base]
         # the same titles as shops write them: ALL CAPS and Capitalised Words (the reduce tables are consulted before
-        # lower-casing, so the upper-case rows of every table are behaviour of their own); and titles around single rows
-        # of the language's tables
-        base = list(ts)
-        for t in rnd.sample(base, max(1, len(base) // 3)) if lang not in ("en", "none") else rnd.sample(base, min(len(base), 20)):
-            ts.append(gen.upper_title(t, rnd))
-            ts.append(" ".join(w[:1].upper() + w[1:] for w in t.split(" ")))
+        # lower-casing, so the upper-case rows of every table are behaviour of their own)
+        accented = [t for t in base if any(ord(ch) > 127 for ch in t)] or base
+        for t in rnd.sample(accented, min(len(accented), 12)) + rnd.sample(base, min(len(base), 6)):
+            reg["case"].append(gen.upper_title(t, rnd))
+            reg["case"].append(" ".join(w[:1].upper() + w[1:] for w in t.split(" ")))
         # the same titles typed on a keyboard that sends accents as separate combining marks (Unicode NFD, which is wider
-        # than the language's own composition table), fully and letter by letter
-        for t in rnd.sample(base, max(1, len(base) // 3)) if lang not in ("en", "none") else rnd.sample(base, min(len(base), 10)):
+        # than the language's own composition table), fully and letter by letter; accented special titles as well (also
+        # letters foreign to the language: café in a German catalogue)
+        for t in rnd.sample(accented, min(len(accented), 12)):
             nfd = unicodedata.normalize("NFD", t)
             if nfd != t:
-                ts.append(nfd)
-                ts.append("".join(unicodedata.normalize("NFD", ch) if rnd.random() < 0.5 else ch for ch in t))
-        # accented special titles (also letters foreign to the language: café in a German catalogue) in NFD as well
+                reg["nfd"].append(nfd)
+                reg["nfd"].append("".join(unicodedata.normalize("NFD", ch) if rnd.random() < 0.5 else ch for ch in t))
         for t in gen.SPECIAL_TITLES:
             nfd = unicodedata.normalize("NFD", t)
             if nfd != t:
-                ts += [nfd, nfd + " bar"]
+                reg["nfd"] += [nfd, nfd + " bar"]
+        # titles around single rows of the language's tables
         tab = gen.LANGTAB[lang]
         rows = [a for a, b in tab["reduce"]] + [b for a, b in tab["compose"]]
-        for a in rnd.sample(rows, min(len(rows), 10)):
-            ts.append(text(a) + rnd.choice(["ngel", "ltima", "rbol"]) + " " + rnd.choice(base).split(" ")[0])
+        for a in rnd.sample(rows, min(len(rows), 12)):
+            reg["table"].append(text(a) + rnd.choice(["ngel", "ltima", "rbol"]) + " " + rnd.choice(base).split(" ")[0])
         # titles made of function words only ("The Who", "Der Die Das") and of one-letter words only ("U.S.A.", "Q & A")
         fw_all = [text(w["w"]) for w in gen.LANGTAB[lang]["function_words"] if " " not in text(w["w"])]
-        for _k in range(4 if fw_all else 0):
+        for _k in range(5 if fw_all else 0):
             ws_ = rnd.sample(fw_all, min(len(fw_all), rnd.randint(2, 4)))
-            ts.append(" ".join(w.capitalize() if rnd.random() < 0.5 else w for w in ws_) + rnd.choice(["", "", "!", "?", "."]))
+            reg["function"].append(" ".join(w.capitalize() if rnd.random() < 0.5 else w for w in ws_) + rnd.choice(["", "", "!", "?", "."]))
         sl = gen.script_letters(lang)
-        ts += [".".join(rnd.sample(sl, 3)).upper() + ".", rnd.choice(sl).upper() + " & " + rnd.choice(sl).upper()]
-        # the special shapes make up roughly a quarter of every pool
-        ts = list(ts) + gen.SPECIAL_TITLES * max(1, round(len(ts) / (3.0 * len(gen.SPECIAL_TITLES))))
+        reg["function"] += [".".join(rnd.sample(sl, 3)).upper() + ".", rnd.choice(sl).upper() + " & " + rnd.choice(sl).upper()]
+        share = {"base": 0.30, "special": 0.25, "case": 0.15, "nfd": 0.12, "table": 0.08, "function": 0.10}
+        ts = []
+        for name in ("base", "special", "case", "nfd", "table", "function"):
+            items = reg[name]
+            if items:
+                rnd.shuffle(items)
+                ts += [items[i % len(items)] for i in range(int(share[name] * 400))]
         pools[lang] = list(ts)
         pairs += [(lang, t) for t in sorted(set(ts))]
         pairs += [(lang, t) for t in gen.ADVERSARIAL]
